@@ -216,7 +216,13 @@ func NewWorld(sch *crypto.Scheme, n, thr, me int, period, genesis, now int64, st
 		return nil, err
 	}
 	w.Epochs = append(w.Epochs, ep)
-	w.Catchup = int64(ep.Group.CatchupPeriod / time.Second)
+	// the catch-up sleep is (c-1).5 s: with whole-second clock advances a sleeper registered at
+	// second t is due from second t+c on, and never exactly at the instant of a tick
+	w.Catchup = 2
+	if period >= 6 {
+		w.Catchup = 3
+	}
+	ep.Group.CatchupPeriod = time.Duration(w.Catchup-1)*time.Second + 500*time.Millisecond
 	w.Clock = clock.NewFakeClockAt(time.Unix(now, 0))
 	w.CClock = &countingClock{FakeClock: w.Clock}
 	switch storeKind {
@@ -261,6 +267,7 @@ func (w *World) newEpoch(n, thr int, transition int64) (*Epoch, error) {
 	g.Threshold = thr
 	g.GenesisSeed = []byte("verif-genesis-seed-0123456789abcdef")
 	if len(w.Epochs) > 0 {
+		g.CatchupPeriod = w.Epochs[0].Group.CatchupPeriod
 		g.GenesisSeed = w.Epochs[0].Group.GenesisSeed
 		g.TransitionTime = transition
 	}
